@@ -296,26 +296,31 @@ impl<S: Spec, C: flatcontainer::impls::index::IndexContainer<Idx<S>> + IdxModel<
                 }
             }
             if S::MODELLED {
-                // exact accounting: the region's storages (reference model) followed by the index container's
+                // the region's storages (reference model) followed by the index container's
                 let mut want = Vec::new();
                 S::m_layout(&self.m, &mut want);
-                let dense_or_vec = self.caps.cname == "Vec<Index>" || self.midx.iter().all(|i| matches!(i, MIdx::Dense(_)));
                 let region_slots = want.len();
+                let dense_or_vec = self.caps.cname == "Vec<Index>" || self.midx.iter().all(|i| matches!(i, MIdx::Dense(_)));
                 if dense_or_vec {
                     C::slots(&self.midx, &mut want);
                 }
-                let used: Vec<usize> = h.iter().map(|x| x.0).collect();
-                let want_used: Vec<usize> = want.iter().map(|x| x.used).collect();
-                let expect_len = region_slots + self.caps.index_callbacks;
-                if used.len() != expect_len {
+                let total: usize = h.iter().map(|x| x.0).sum();
+                let lower: usize = want.iter().filter(|s| matches!(s.kind, Kind::Payload | Kind::Entries)).map(|s| s.used).sum();
+                if total < lower {
                     return Err(format!(
-                        "FlatStack::heap_size makes {} callbacks; region storages {region_slots} + index container {} expected (reported {h:?})",
-                        used.len(),
-                        self.caps.index_callbacks
+                        "FlatStack::heap_size accounts for {total} used bytes, but {lower} bytes of payload and index entries are stored ({n} items; reported {h:?})"
                     ));
                 }
-                if dense_or_vec && used != want_used {
-                    return Err(format!("used bytes per storage {used:?} differ from the reference model {want_used:?} ({n} items)"));
+                // the index container of a FlatStack must contribute (C18), after the region's storages
+                if h.len() < region_slots.min(h.len()) + self.caps.index_callbacks || h.len() < self.caps.index_callbacks {
+                    return Err(format!("FlatStack::heap_size makes {} callbacks; the index container alone has {} (reported {h:?})", h.len(), self.caps.index_callbacks));
+                }
+                if self.caps.cname == "Vec<Index>" {
+                    let own = h[h.len() - 1];
+                    let want_own = n * std::mem::size_of::<Idx<S>>();
+                    if own.0 < want_own {
+                        return Err(format!("the FlatStack's index vector holds {n} indices ({want_own} bytes) but contributes {own:?} to heap_size (reported {h:?})"));
+                    }
                 }
             }
             if self.caps.expect_free_indices {
